@@ -21,32 +21,31 @@ def field_lines(fs, i, n, indent, col, tc):
 
 
 @pred
-def entry_text(block, fmt):
+def entry_text(block, indent, tc, col):
     return ("@" + block._entry_type + "{" + block._key + ",\n"
-            + field_lines(block._fields, len(block._fields), len(block._fields), fmt._indent,
-                          ival(fmt._align_field_values), fmt._trailing_comma)
+            + field_lines(block._fields, len(block._fields), len(block._fields), indent, col, tc)
             + "}\n")
 
 
 @pred
-def string_text(block, fmt):
+def string_text(block):
     return "@string{" + block._key + " = " + sval(block._value) + "}\n"
 
 
 @pred
-def failed_text(block, fmt):
-    # the CONFIGURED comment (property C06), formatted with the number of raw lines
-    return fmt._parsing_failed_comment.format(n=len(sval(block._raw).splitlines())) + "\n" + sval(block._raw) + "\n"
+def failed_text(block, pfc):
+    # pfc: the CONFIGURED comment (property C06), formatted with the number of raw lines
+    return pfc.format(n=nlines(sval(block._raw))) + "\n" + sval(block._raw) + "\n"
 
 
-@pred
-def block_text(block, fmt):
-    return (entry_text(as_ref(block, 'ref:Entry'), fmt) if isinstance(block, Entry)
-            else string_text(as_ref(block, 'ref:String'), fmt) if isinstance(block, String)
+@rec(args={"block": "ref:Block", "indent": "str", "tc": "bool", "pfc": "str", "col": "int"}, ret="str")
+def block_text(block, indent, tc, pfc, col):
+    return (entry_text(as_ref(block, 'ref:Entry'), indent, tc, col) if isinstance(block, Entry)
+            else string_text(as_ref(block, 'ref:String')) if isinstance(block, String)
             else "@preamble{" + as_ref(block, 'ref:Preamble')._value + "}\n" if isinstance(block, Preamble)
             else "@comment{" + as_ref(block, 'ref:ExplicitComment')._comment + "}\n" if isinstance(block, ExplicitComment)
             else as_ref(block, 'ref:ImplicitComment')._comment + "\n" if isinstance(block, ImplicitComment)
-            else failed_text(as_ref(block, 'ref:ParsingFailedBlock'), fmt))
+            else failed_text(as_ref(block, 'ref:ParsingFailedBlock'), pfc))
 
 
 @pred
@@ -61,10 +60,22 @@ def writable(block):
             and implies(isinstance(block, ParsingFailedBlock), isstr(block._raw)))
 
 
-@rec(args={"bs": "list:ref:Block", "i": "int", "n": "int", "fmt": "ref:BibtexFormat"}, ret="str")
-def blocks_text(bs, i, n, fmt):
-    return "" if i <= 0 else (blocks_text(bs, i - 1, n, fmt) + block_text(bs[i - 1], fmt)
-                              + (fmt._block_separator if i - 1 < n - 1 else ""))
+@pred
+def fmt_block_text(block, fmt, col):
+    return block_text(block, fmt._indent, fmt._trailing_comma, fmt._parsing_failed_comment, col)
+
+
+@pred
+def fmt_blocks_text(bs, i, n, fmt, col):
+    return blocks_text(bs, i, n, fmt._indent, fmt._block_separator, fmt._trailing_comma, fmt._parsing_failed_comment, col)
+
+
+@rec(args={"bs": "list:ref:Block", "i": "int", "n": "int", "indent": "str", "sep": "str", "tc": "bool", "pfc": "str", "col": "int"}, ret="str")
+def blocks_text(bs, i, n, indent, sep, tc, pfc, col):
+    """the writer's output for the first i of n blocks: block texts in order, the separator after every
+    block but the last; `col` is the value column in force (the configured int, or the auto column)"""
+    return "" if i <= 0 else (blocks_text(bs, i - 1, n, indent, sep, tc, pfc, col) + block_text(bs[i - 1], indent, tc, pfc, col)
+                              + (sep if i - 1 < n - 1 else ""))
 
 
 @contract("bibtexparser.writer._val_intent_string")
@@ -96,7 +107,7 @@ class _:
                      "text": "joined(res) == '@' + block._entry_type + '{' + block._key + ',\\n' + field_lines(block._fields, _i, len(block._fields), bibtex_format._indent, ival(bibtex_format._align_field_values), bibtex_format._trailing_comma)",
                      "res-fresh": "fresh(res)"},
                  "props": ("C06",)}}
-    ensures = {"C06.entry-text": "joined(result) == entry_text(block, bibtex_format)",
+    ensures = {"C06.entry-text": "joined(result) == entry_text(block, bibtex_format._indent, bibtex_format._trailing_comma, ival(bibtex_format._align_field_values))",
                "C07.fresh": "fresh(result)"}
     raises = {}
     modifies = []
@@ -106,7 +117,7 @@ class _:
 class _:
     sorts = {"block": "ref:String", "bibtex_format": "ref:BibtexFormat", "result": "list:str"}
     requires = {"value-str": "isstr(block._value)"}
-    ensures = {"C06.string-text": "joined(result) == string_text(block, bibtex_format)", "C07.fresh": "fresh(result)"}
+    ensures = {"C06.string-text": "joined(result) == string_text(block)", "C07.fresh": "fresh(result)"}
     raises = {}
     modifies = []
 
@@ -140,7 +151,7 @@ class _:
     """failed blocks are emitted verbatim under the CONFIGURED warning comment (property text)"""
     sorts = {"block": "ref:ParsingFailedBlock", "bibtex_format": "ref:BibtexFormat", "result": "list:str"}
     requires = {"raw-str": "isstr(block._raw)"}
-    ensures = {"C06.failed-text": "joined(result) == failed_text(block, bibtex_format)", "C07.fresh": "fresh(result)"}
+    ensures = {"C06.failed-text": "joined(result) == failed_text(block, bibtex_format._parsing_failed_comment)", "C07.fresh": "fresh(result)"}
     raises = {}
     modifies = []
 
@@ -149,6 +160,108 @@ class _:
 class _:
     sorts = {"bibtex_format": "ref:BibtexFormat", "block": "ref:Block", "result": "list:str"}
     requires = {"column-int": COLUMN_INT, "writable": "writable(block)"}
-    ensures = {"C06.block-text": "joined(result) == block_text(block, bibtex_format)", "C07.fresh": "fresh(result)"}
+    ensures = {"C06.block-text": "joined(result) == fmt_block_text(block, bibtex_format, ival(bibtex_format._align_field_values))", "C07.fresh": "fresh(result)"}
+    raises = {}
+    modifies = []
+
+
+@pred
+def auto_bound(library, c):
+    return forall((p, q), 0 <= p < len(library._blocks) and isinstance(library._blocks[p], Entry) and 0 <= q < len(as_ref(library._blocks[p], 'ref:Entry')._fields), len(as_ref(library._blocks[p], 'ref:Entry')._fields[q]._key) + 3 <= c)
+
+
+@pred
+def auto_attained(library, c):
+    return c == 3 or exists((p, q), 0 <= p < len(library._blocks) and isinstance(library._blocks[p], Entry) and 0 <= q < len(as_ref(library._blocks[p], 'ref:Entry')._fields), len(as_ref(library._blocks[p], 'ref:Entry')._fields[q]._key) + 3 == c)
+
+
+@contract("bibtexparser.writer._calculate_auto_value_align")
+class _:
+    """3 + the longest field key over all Entry blocks (no key: 3).  `auto-bound`: every key of every
+    entry fits the column; `auto-min`: some key attains it, so no smaller column would do."""
+    sorts = {"library": "ref:Library", "result": "int"}
+    loops = {
+        1: {"cursor": "_i", "iter_name": "ents",
+            "invariant": {
+                "range": "0 <= _i <= len(ents)",
+                "bound": "forall((p, q), 0 <= p < _i and 0 <= q < len(ents[p]._fields), len(ents[p]._fields[q]._key) <= max_key_len)",
+                "attained": "max_key_len == 0 or exists((p, q), 0 <= p < _i and 0 <= q < len(ents[p]._fields), len(ents[p]._fields[q]._key) == max_key_len)",
+                "nonneg": "max_key_len >= 0"},
+            "props": ("C06",)},
+        2: {"cursor": "_j", "iter_name": "fd",
+            "invariant": {
+                "range": "0 <= _j <= len(fd)",
+                "outer": "0 <= _i < len(ents) and same(entry, ents[_i])",
+                "bound-outer": "forall((p, q), 0 <= p < _i and 0 <= q < len(ents[p]._fields), len(ents[p]._fields[q]._key) <= max_key_len)",
+                "bound-inner": "forall(t, 0 <= t < _j, len(dict_key_at(fd, t)) <= max_key_len)",
+                "attained": "max_key_len == 0 or exists((p, q), 0 <= p <= _i and 0 <= q < len(ents[p]._fields), len(ents[p]._fields[q]._key) == max_key_len)",
+                "nonneg": "max_key_len >= 0"},
+            "props": ("C06",)},
+    }
+    ensures = {
+        "C06.auto-bound": "auto_bound(library, result)",
+        "C06.auto-min": "auto_attained(library, result)",
+        "C06.auto-ge3": "result >= 3",
+    }
+    raises = {}
+    modifies = []
+
+
+@contract("bibtexparser.writer.BibtexFormat.__init__")
+class _:
+    sorts = {"self": "ref:BibtexFormat"}
+    ensures = {"C06.defaults": "self._indent == '\\t' and isint(self._align_field_values) and ival(self._align_field_values) == 0 and self._block_separator == '\\n\\n' and self._trailing_comma == False and self._parsing_failed_comment == '% WARNING Parsing failed for the following {n} lines.'"}
+    raises = {}
+    modifies = ["@self._indent", "@self._align_field_values", "@self._block_separator", "@self._trailing_comma", "@self._parsing_failed_comment"]
+    allocates = False
+
+
+@contract("bibtexparser.writer.BibtexFormat.value_column.setter")
+class _:
+    """accepts exactly non-negative ints and 'auto'"""
+    sorts = {"self": "ref:BibtexFormat", "align_values": "any"}
+    ensures = {"C06.setter-stores": "self._align_field_values == align_values"}
+    raises = {"ValueError": {"when": "not ((isint(align_values) and ival(align_values) >= 0) or isinstance(align_values, bool) or (isstr(align_values) and sval(align_values) == 'auto'))",
+                             "ensures": {"C06.setter-rollback": "self._align_field_values == old(self._align_field_values)"}}}
+    modifies = ["@self._align_field_values"]
+    allocates = False
+
+
+@pred
+def all_writable(library):
+    return forall(j, 0 <= j < len(library._blocks), writable(library._blocks[j]))
+
+
+@contract("bibtexparser.writer.write")
+class _:
+    """output = blocks in library order, each block's text, the separator between blocks and none after
+    the last; with 'auto' the column is 3 + the longest key and the caller's format is not written to"""
+    sorts = {"library": "ref:Library", "bibtex_format": "optref:ref:BibtexFormat", "result": "str"}
+    requires = {
+        "writable": "all_writable(library)",
+        "column-valid": "isnone(bibtex_format) or (isint(bibtex_format._align_field_values) and ival(bibtex_format._align_field_values) >= 0) or (isstr(bibtex_format._align_field_values) and sval(bibtex_format._align_field_values) == 'auto')",
+    }
+    locals = {"string_pieces": "list:str"}
+    loops = {1: {"cursor": "_i", "iter_name": "blks",
+                 "invariant": {
+                     "range": "0 <= _i <= len(library._blocks) and same(blks, library._blocks)",
+                     "fmt": "not isnone(bibtex_format) and isint(bibtex_format._align_field_values) and ival(bibtex_format._align_field_values) >= 0",
+                     "text": "joined(string_pieces) == fmt_blocks_text(library._blocks, _i, len(library._blocks), bibtex_format, ival(bibtex_format._align_field_values))",
+                     "copy-fresh": "implies(not isnone(old(bibtex_format)) and isstr(old(bibtex_format._align_field_values)), fresh(bibtex_format))",
+                     "copy-indent": "implies(not isnone(old(bibtex_format)) and isstr(old(bibtex_format._align_field_values)), bibtex_format._indent == old(bibtex_format._indent))",
+                     "copy-sep": "implies(not isnone(old(bibtex_format)) and isstr(old(bibtex_format._align_field_values)), bibtex_format._block_separator == old(bibtex_format._block_separator))",
+                     "copy-comma": "implies(not isnone(old(bibtex_format)) and isstr(old(bibtex_format._align_field_values)), bibtex_format._trailing_comma == old(bibtex_format._trailing_comma))",
+                     "copy-comment": "implies(not isnone(old(bibtex_format)) and isstr(old(bibtex_format._align_field_values)), bibtex_format._parsing_failed_comment == old(bibtex_format._parsing_failed_comment))",
+                     "copy-bound": "implies(not isnone(old(bibtex_format)) and isstr(old(bibtex_format._align_field_values)), auto_bound(library, ival(bibtex_format._align_field_values)))",
+                     "copy-attained": "implies(not isnone(old(bibtex_format)) and isstr(old(bibtex_format._align_field_values)), auto_attained(library, ival(bibtex_format._align_field_values)))",
+                     "fmt-same": "implies(not isnone(old(bibtex_format)) and not isstr(old(bibtex_format._align_field_values)), same(bibtex_format, old(bibtex_format)))",
+                     "pieces-fresh": "fresh(string_pieces)",
+                 },
+                 "props": ("C06",)}}
+    ensures = {
+        "C06.int-column": "implies(not isnone(bibtex_format) and isint(bibtex_format._align_field_values), result == fmt_blocks_text(library._blocks, len(library._blocks), len(library._blocks), bibtex_format, ival(bibtex_format._align_field_values)))",
+        "C06.auto-column": "implies(not isnone(bibtex_format) and isstr(bibtex_format._align_field_values), forall(c, 3 <= c and auto_bound(library, c) and auto_attained(library, c), result == fmt_blocks_text(library._blocks, len(library._blocks), len(library._blocks), bibtex_format, c)))",
+        "C06.format-unchanged": "isnone(bibtex_format) or (bibtex_format._align_field_values == old(bibtex_format._align_field_values) and bibtex_format._indent == old(bibtex_format._indent) and bibtex_format._block_separator == old(bibtex_format._block_separator) and bibtex_format._trailing_comma == old(bibtex_format._trailing_comma) and bibtex_format._parsing_failed_comment == old(bibtex_format._parsing_failed_comment))",
+    }
     raises = {}
     modifies = []
